@@ -55,3 +55,157 @@ def main(tier, t0):
         'polynomials (polynomial identity of code; pinned by raw-coordinate test vectors), nor which of the finitely many isogenies of that degree it is.',
         ['rustc const evaluation', 'a non-constant rational map between elliptic curves fixing infinity is a homomorphism'],
         ['partial claim: tables decided, evaluator code not'])
+
+
+# ---------------------------------------------------------------- the evaluator itself
+def rule_evaluator(fx, rep, iso):
+    """Abstract interpretation of eval_iso in the sum-of-monomials domain (products only by
+    monomials; a product of two multi-term sums is interned as a named atom): every path
+    must return Jacobian coordinates with
+        X/Z^2 = N_x/D_x ,   Y/Z^3 = N_y/D_y
+    where N_x = z^(2d) XNUM(x/z^2), D_x = z^(2d) XDEN(x/z^2), N_y = y z^(2e) YNUM(x/z^2),
+    D_y = z^3 z^(2e) YDEN(x/z^2) are the homogenised table polynomials (common power of z
+    in numerator and denominator), modulo what a path condition on z allows."""
+    import exp
+    from exp import Agg, Lin, Ref, Sum, Int
+    evs = set((callee(d['call']).get('res') or callee(d['call'])['def']) for d in iso.values())
+    if len(evs) != 1:
+        return
+    ev = evs.pop()
+    body = fx.body(ev)
+    for g, d in sorted(iso.items()):
+        lens = d['lens']
+        inst = '%s:evaluator' % g
+
+        def tr(I, fr, t, c, pth):
+            nm = c.get('name')
+            res = c.get('res') or c['def']
+            args = t['args']
+            if nm in ('as_tuple', 'as_tuple_mut') and c.get('trait') == 'CurveProjective':
+                tgt = fr.ref_place_of(args[0])
+                if isinstance(tgt, dict):
+                    root, proj = fr.root_of(tgt)
+                    fr.storev(t['dest'], Agg([Ref(root, list(proj) + [['f', i, '']]) for i in range(3)]))
+                    return True
+                return False
+            if nm == 'split_at_mut' and res.startswith('core::slice::<impl [T]>::split_at_mut'):
+                v = fr.operand(args[0])
+                k = fr.operand(args[1])
+                if isinstance(v, Ref) and isinstance(k, Int):
+                    fr.storev(t['dest'], Agg([Ref(v.root, list(v.proj)), Ref(v.root, list(v.proj) + [['off', k.v]])]))
+                    return True
+                return False
+            return False
+        I = exp.Interp(fx, 'mul', extra_transfer=tr, max_paths=16, max_steps=200000)
+        I.sums = True
+        tables = Agg([Agg([Lin.atom('t%d_%d' % (i, k)) for k in range(lens[i])]) for i in range(4)])
+        pt = Agg([Lin.atom('x'), Lin.atom('y'), Lin.atom('z')])
+        try:
+            res = I.run(ev, [('byref', pt), tables])
+        except (exp.NotDerivable, exp.Budget) as e:
+            rep.fail('HORNER', inst, 'evaluator not derivable: %s at %s' % (e, getattr(e, 'where', None)), fx.fn(ev)['span'], construct=ev)
+            continue
+        rep.sites(I.call_sites)
+        bad = []
+        for pth, ret, outs in res:
+            out = outs.get(1)
+            if not (isinstance(out, Agg) and len(out.items) == 3):
+                bad.append('point not written back (%r)' % (out,))
+                continue
+            # path conditions on z:  eq(a, b) taken true with a - b = n*z  ->  z-exponents are only meaningful mod n
+            zmod = 0
+            conds = []
+            for lab, v in pth.labels:
+                x = lab
+                neg = False
+                while isinstance(x, tuple) and x and x[0] == 'not':
+                    neg = not neg
+                    x = x[1]
+                if isinstance(x, tuple) and x and x[0] in ('eq', 'ne') and isinstance(x[1], Lin) and isinstance(x[2], Lin):
+                    equal = ((v != 0) != neg) if x[0] == 'eq' else not ((v != 0) != neg)
+                    diff = x[1].add(x[2].neg())
+                    if equal:
+                        if set(diff.t) == {'z'}:
+                            from math import gcd
+                            zmod = gcd(zmod, abs(diff.t['z']))
+                            conds.append('z^%d = 1' % abs(diff.t['z']))
+                        else:
+                            conds.append('%r = 1 (not used)' % (diff,))
+            X, Y, Z = [I._intern(v) if not isinstance(v, Lin) else v for v in out.items]
+            if not all(isinstance(v, Lin) for v in (X, Y, Z)):
+                bad.append('output coordinates are not products of the four polynomial values (%r)' % (out.items,))
+                continue
+            xa = X.add(Z.scale(-2))
+            ya = Y.add(Z.scale(-3))
+
+            def resolve(l):
+                """monomial over interned sums -> (list of (Sum, exponent))"""
+                out_ = []
+                mono = Lin()
+                for a, k in l.t.items():
+                    if a.startswith('S#'):
+                        out_.append((I.interned[int(a[2:])], k))
+                    else:
+                        mono = mono.add(Lin({a: k}))
+                return out_, mono
+            okp = True
+            for which, aff, (ni, di), extra_num, extra_den in (('x', xa, (0, 1), Lin(), Lin()), ('y', ya, (2, 3), Lin({'y': 1}), Lin({'z': 3}))):
+                parts, mono = resolve(aff)
+                nums = [(s_, k) for s_, k in parts if k == 1]
+                dens = [(s_, k) for s_, k in parts if k == -1]
+                if len(nums) != 1 or len(dens) != 1 or len(parts) != 2:
+                    bad.append('%s%s: affine %s is %r, not a quotient of two polynomial values' % ('[%s] ' % ', '.join(conds) if conds else '', which, which, aff))
+                    okp = False
+                    continue
+                num, den = nums[0][0], dens[0][0]
+                # fold the stray monomial into the numerator
+                num = num.mul_mono(mono)
+                why = homogeneous_pair(num, den, ni, di, lens, extra_num, extra_den, zmod)
+                if why:
+                    bad.append('%s%s-coordinate: %s' % ('[%s] ' % ', '.join(conds) if conds else '', which, why))
+        rep.check(not bad, 'HORNER', inst,
+                  'on all %d paths: X/Z^2 = XNUM(x/z^2)/XDEN(x/z^2) and Y/Z^3 = (y/z^3) YNUM(x/z^2)/YDEN(x/z^2) as homogenised sums over the table coefficients (every coefficient with its own power of x and the complementary power of z)' % len(res),
+                  '; '.join(bad[:3]), fx.fn(ev)['span'], construct=ev)
+
+
+def homogeneous_pair(num, den, ni, di, lens, extra_num, extra_den, zmod):
+    """num / den == extra_num/extra_den * P_ni(x/z^2) / P_di(x/z^2) ?  Each term must be
+    coefficient t{idx}_k times x^k z^(2(D-k)) (times the extra factor) with one common D."""
+    from exp import Lin
+    Ds = set()
+    for which, s_, idx, extra in (('numerator', num, ni, extra_num), ('denominator', den, di, extra_den)):
+        seen = set()
+        for mono, coef in s_.t.items():
+            m = Lin(dict(mono)).add(extra.neg())
+            cs = [a for a in m.t if a.startswith('t')]
+            if len(cs) != 1 or m.t[cs[0]] != 1 or coef != 1:
+                return '%s has a term %r with coefficient %d that is not a single table coefficient' % (which, m, coef)
+            tix, k = cs[0][1:].split('_')
+            tix, k = int(tix), int(k)
+            if tix != idx:
+                return '%s uses coefficient %s of table %d, expected table %d' % (which, cs[0], tix, idx)
+            rest = {a: e for a, e in m.t.items() if a != cs[0]}
+            if set(rest) - {'x', 'z'}:
+                return '%s term for %s carries unexpected factors %r' % (which, cs[0], rest)
+            if rest.get('x', 0) != k:
+                return '%s: coefficient %s (degree %d) is multiplied by x^%d' % (which, cs[0], k, rest.get('x', 0))
+            zexp = rest.get('z', 0)
+            D2 = zexp + 2 * k            # = 2D
+            Ds.add(D2 if not zmod else D2 % zmod)
+            seen.add(k)
+        if seen != set(range(lens[idx])):
+            return '%s misses coefficients %s of table %d' % (which, sorted(set(range(lens[idx])) - seen), idx)
+    if len(Ds) != 1:
+        return 'powers of z are not homogeneous (2D takes the values %s%s): the quotient is not the table polynomials evaluated at x/z^2' % (sorted(Ds), ' mod %d' % zmod if zmod else '')
+    return None
+
+
+_rules0 = rules
+
+
+def rules(fx, rep):
+    sswu = C.check_sswu_consts(fx, rep)
+    iso = C.check_iso_tables(fx, rep, sswu)
+    _rules0(fx, rep)
+    if len(iso) == 2:
+        rule_evaluator(fx, rep, iso)
